@@ -534,6 +534,12 @@ def run(tier, seed):
 
     pjobs = [(seq, bs) for n in (1, 2, 3) for seq in _it.product(sorted(PIPE_ROWS), repeat=n) for bs in (None, 1, 2)
              if not (bs == 2 and n < 3) or n >= 2]
+    # position ladder: ONE mapped row behind k bracket-free rows in one batch (a decision taken from the leading
+    # rows of a batch, or from a sample of them, shows here), k around the usual probe / chunk sizes
+    for k in (4, 7, 8, 9, 10, 15, 16, 17, 31, 32, 33, 63, 64, 65, 100, 127, 128, 129):
+        for m in ("M", "E"):
+            pjobs.append((("U",) * k + (m, "U"), None))
+        pjobs.append((("U",) * k + ("M",), 2 * k))
     pres = pmap("checks.c15:pipeline_item", pjobs, chunk=4, seed=seed, timeout=7200)
     pipe_bad = {}
     for job, r in zip(pjobs, pres):
@@ -582,7 +588,7 @@ def run(tier, seed):
                 "bonding environments; {} aromatic symbols x H x charge x map in {} ring "
                 "environments; explicit-bond/explicit-H writings rooted at every atom of {} "
                 "molecules; {} distinct corpus reaction strings; a size ladder of fully mapped strings with 1..1001 map "
-                "numbers; rebalance batches of mapped/unmapped rows). Only molecules RDKit parses "
+                "numbers; rebalance batches of mapped/unmapped rows, incl. one mapped row behind k = 4..129 bracket-free rows of the same batch). Only molecules RDKit parses "
                 "without radical electrons are judged (valid_strings / molecules). "
                 "distinct_nontrivial = distinct closed-shell bracket forms (resp. syntax "
                 "spellings, corpus reactions) whose text remove_atom_mapping actually "
